@@ -129,7 +129,9 @@ ParDeadline(H, snt) == EngineStart(snt) + H.par.timeout_us + H.par.delay_us * Pr
 \* is delivery x inside the listening window of send j (at least one poll before the end)?
 InWindow(H, snt, dl, j, i) ==
     IF IsSerial(V(H))
-    THEN /\ dl[i].t <= snt[j].t + H.par.timeout_us - H.par.poll_us
+    \* serial: the engine polls as long as the per-TTL timeout has not expired - the whole timeout is listening time, whatever its
+    \* relation to the poll interval (strictly before the expiry: a tie with the timer may go either way)
+    THEN /\ dl[i].t < snt[j].t + H.par.timeout_us
          /\ (j < Len(snt) => dl[i].n < snt[j + 1].n)
     ELSE dl[i].t <= ParDeadline(H, snt) - H.par.poll_us
 
